@@ -1,3 +1,4 @@
 -- GENERATED. Root of the regenerated fact tables.
 import MpsGen.Hash
+import MpsGen.Protocols
 import MpsGen.Session
